@@ -500,6 +500,10 @@ class DatasetProcessor:
         if self.args.read_assignments:
             saves_file = self.args.read_assignments[0]
             logger.info('Using read assignments from {}*'.format(saves_file))
+            # the number of unaligned reads reported in the count tables is saved along with the assignments
+            alignment_stat_file = saves_file + "_alignment_stat"
+            if os.path.exists(alignment_stat_file):
+                self.alignment_stat_counter = EnumStats(alignment_stat_file)
         else:
             self.collect_reads(sample)
             saves_file = sample.out_raw_file
